@@ -2,6 +2,7 @@ import LentilVerif.Model.Field
 import LentilVerif.Model.Fourier
 import LentilVerif.Gen.Helper
 import LentilVerif.Gen.PlanePhase
+import LentilVerif.Gen.WfViews
 /-! Executable model of `lentil.plane.Plane.multiply` (per-segment phasors, fields × segments loop) and of the
 `Wavefront` views `field`, `intensity`, `insert` (`lentil/wavefront.py`). Generic in the value type `K` of the field and
 the type `R` of optical path differences; Mathlib-free. The slice offset is the *generated* `Gen.sliceOffset`
@@ -133,23 +134,30 @@ def chainMultiply [Zero K] [Mul K] (ph : R → K) (ps : List (PlaneM K R)) (data
 
 def zerosArr [Zero K] (s0 s1 : Int) : Arr K := { s0 := s0, s1 := s1, get := fun _ _ => 0 }
 
-/-- `Wavefront.field` for a 2-D `shape`: every field inserted (complex, weight 1) into zeros -/
-def wfField [Add K] [Mul K] [Zero K] (one : K) (s0 s1 : Int) (data : List (Fld K)) : Arr K :=
-  data.foldl (fun out f => insertArr f out one) (zerosArr s0 s1)
-
-/-- one pass of the loop of `Wavefront.insert` over what `reduce` returned -/
-def insertStep [Add K] [Mul K] (nsq : K → K) (w : K) (acc : Option (Arr K)) (g : Option (Fld K)) : Option (Arr K) :=
+/-- one pass of the loop of a view over the (optional) fields it iterates -/
+def insertStep [Add K] [Mul K] (post : K → K) (w : K) (acc : Option (Arr K)) (g : Option (Fld K)) : Option (Arr K) :=
   match acc, g with
-  | some o, some f => some (insertArr f o w nsq)
+  | some o, some f => some (insertArr f o w post)
   | _, _ => none
 
-/-- `Wavefront.insert(out, weight)`: `reduce` the fields, then insert `|field|^2 * weight` of every reduced field;
-`nsq z` stands for `|z^2|`. `none` when `reduce` hits the origin-pixel corner where NumPy raises. -/
+/-- the common loop of `Wavefront.field` / `.intensity` / `.insert`, driven by the *generated* wiring record
+(`Gen/WfViews.lean`, read off wavefront.py on every run): iterate `reduce(self.data)` or `self.data`, insert the complex
+samples or `|.|^2` (`nsq`), with weight `weight` or the default 1 (`one`) -/
+def viewRun [Add K] [Mul K] [Zero K] (wr : Gen.ViewWiring) (one : K) (nsq : K → K) (data : List (Fld K)) (out : Arr K)
+    (weight : K) : Option (Arr K) :=
+  (if wr.reduce then reduce data else data.map some).foldl
+    (insertStep (if wr.intensity then nsq else id) (if wr.weighted then weight else one)) (some out)
+
+/-- `Wavefront.field` for a 2-D `shape` (never fails: no `reduce`) -/
+def wfField [Add K] [Mul K] [Zero K] (one : K) (s0 s1 : Int) (data : List (Fld K)) : Arr K :=
+  (viewRun Gen.fieldWiring one id data (zerosArr s0 s1) one).getD (zerosArr s0 s1)
+
+/-- `Wavefront.insert(out, weight)`; `nsq z` stands for `|z^2|` -/
 def wfInsert [Add K] [Mul K] [Zero K] (nsq : K → K) (data : List (Fld K)) (out : Arr K) (w : K) : Option (Arr K) :=
-  (reduce data).foldl (insertStep nsq w) (some out)
+  viewRun Gen.insertWiring w nsq data out w
 
 /-- `Wavefront.intensity` -/
 def wfIntensity [Add K] [Mul K] [Zero K] (one : K) (nsq : K → K) (s0 s1 : Int) (data : List (Fld K)) : Option (Arr K) :=
-  wfInsert nsq data (zerosArr s0 s1) one
+  viewRun Gen.intensityWiring one nsq data (zerosArr s0 s1) one
 
 end Lentil
